@@ -172,6 +172,29 @@ def tblDD (t : List Nat) (i : UInt64) : Except String DecDigits :=
   | some a, some b, some c, some d => .ok ⟨UInt32.ofNat a, UInt64.ofNat b, UInt64.ofNat c, UInt32.ofNat d⟩
   | _, _, _, _ => .error "index out of bounds"
 
+/-- `T[lo..=hi].iter().take_while(p).count()`: the number of leading entries of the slice that satisfy `p`
+(the slice itself panics when `hi` is out of range) -/
+def countWhileAux {α} (get : Nat → Except String α) (p : α → Bool) : Nat → Nat → Nat → Except String Nat
+  | 0, _, acc => .ok acc
+  | n + 1, i, acc => do
+    let v ← get i
+    if p v then countWhileAux get p n (i + 1) (acc + 1) else pure acc
+
+def countWhile64 (t : List Nat) (lo hi : Nat) (p : UInt64 → Bool) : Except String UInt64 := do
+  let _ ← tbl64 t (UInt64.ofNat hi)
+  let n ← countWhileAux (fun i => tbl64 t (UInt64.ofNat i)) p (hi + 1 - lo) lo 0
+  pure (UInt64.ofNat n)
+
+def countWhile128 (t : List Nat) (lo hi : Nat) (p : U128 → Bool) : Except String UInt64 := do
+  let _ ← tbl128 t (UInt64.ofNat hi)
+  let n ← countWhileAux (fun i => tbl128 t (UInt64.ofNat i)) p (hi + 1 - lo) lo 0
+  pure (UInt64.ofNat n)
+
+def countWhile256 (t : List Nat) (lo hi : Nat) (p : U256 → Bool) : Except String UInt64 := do
+  let _ ← tbl256 t (UInt64.ofNat hi)
+  let n ← countWhileAux (fun i => tbl256 t (UInt64.ofNat i)) p (hi + 1 - lo) lo 0
+  pure (UInt64.ofNat n)
+
 /-- `T[i][j]` of a table `[[BID_UINT128; inner]; outer]` -/
 def tbl128_2 (t : List Nat) (inner : Nat) (i j : UInt64) : Except String U128 :=
   if j.toNat < inner then
